@@ -62,10 +62,15 @@ func TestC13(t *testing.T) {
 		sig := canon.Signal(c.Idx % 3)
 		o := DefaultOpts()
 		// threshold 0.3 with unique values => overflow to plain columns; threshold 10 => reset
-		o.Reset = []float64{0.3, 10}[(c.Idx/3)%2]
-		o.Limit = []string{"16", "default"}[(c.Idx/6)%2]
+		o.Limit = []string{"16", "default"}[(c.Idx/3)%2]
+		o.Reset = []float64{0.3, 10}[(c.Idx/6+c.Idx/3)%2]
 		high := e.Thorough() && (c.Idx/12)%2 == 1
 		nb, n := e.Pick(4, 10), 21000 // three batches reach 63,000 entries (96 % of the limit), the fourth crosses 65,535
+		if o.Limit == "default" {
+			// the DEFAULT limit is part of the property (65,535): run long enough that a dictionary which
+			// was merely widened and restarted at the crossing would pass 65,535 entries again
+			nb = e.Pick(8, 12)
+		}
 		if high {
 			n, nb = 60000, 10 // pool grows by n/8 per batch; a batch must stay <= 65,535 items (domain)
 			o.Reset = []float64{0.3, 1}[(c.Idx/3)%2]
